@@ -241,6 +241,13 @@ def extract():
     strws = [i for i in range(256) if chr(i).isspace()]
     bytesws = [i for i in range(256) if bytes([i]).strip() == b""]
     hexd = [i for i in range(256) if bytes([i]).strip(b"0123456789abcdefABCDEF") == b""]
+    def _intok(t):
+        try:
+            int(t)
+            return True
+        except ValueError:
+            return False
+    intws = [i for i in range(256) if chr(i) not in "0123456789+-_" and _intok(chr(i) + "2") and _intok("2" + chr(i))]
     maxdig = sys.get_int_max_str_digits() if hasattr(sys, "get_int_max_str_digits") else 0
 
     # --- exception classes
@@ -319,6 +326,8 @@ def extract():
     L.append("def latin1Lower : List Nat := [" + ", ".join(map(str, lower)) + "]")
     L.append("/-- code points < 256 with `str.isspace()` (str.split() / str.strip()) -/")
     L.append("def strSpace : List Nat := [" + ", ".join(map(str, strws)) + "]")
+    L.append("/-- code points < 256 that `int(str)` strips from both ends (not the same set as str.isspace()) -/")
+    L.append("def intSpace : List Nat := [" + ", ".join(map(str, intws)) + "]")
     L.append("/-- bytes removed by `bytes.strip()` -/")
     L.append("def bytesSpace : List Nat := [" + ", ".join(map(str, bytesws)) + "]")
     L.append("/-- bytes accepted as a chunk-size digit by parseChunk (probe of its strip set) -/")
